@@ -3,6 +3,7 @@ package props
 import (
 	"fmt"
 	"strings"
+	"sync"
 	"testing"
 
 	"github.com/pip-services3-gox/pip-services3-expressions-gox/csv"
@@ -73,13 +74,26 @@ func c09Write(c c09Case) (text string, quoted [][]bool) {
 	return sb.String(), quoted
 }
 
-func checkC09(c c09Case) *evid.Fail {
+func checkC09(c c09Case) *evid.Fail { return checkC09With(nil, c) }
+
+// checkC09With: configured != nil is a tokenizer that already carries the case's configuration (the exhaustive
+// enumeration reuses one per configuration and worker; failures are re-run on a fresh one).
+func checkC09With(configured *csv.CsvTokenizer, c c09Case) *evid.Fail {
 	text, quoted := c09Write(c)
 	var toks []tk
 	if g := guard(func() {
-		t := csv.NewCsvTokenizer()
-		t.SetFieldSeparators(c.Seps)
-		t.SetQuoteSymbols(c.Quotes)
+		t := configured
+		if t == nil {
+			t = csv.NewCsvTokenizer()
+			// the order of the configuration calls must not matter
+			if len(text)%2 == 0 {
+				t.SetFieldSeparators(c.Seps)
+				t.SetQuoteSymbols(c.Quotes)
+			} else {
+				t.SetQuoteSymbols(c.Quotes)
+				t.SetFieldSeparators(c.Seps)
+			}
+		}
 		t.SetDecodeStrings(true)
 		for _, x := range t.TokenizeBuffer(text) {
 			toks = append(toks, tk{x.Type(), x.Value(), x.Line(), x.Column()})
@@ -202,6 +216,30 @@ func c09Run(rec *evid.Recorder, c c09Case) bool {
 	return false
 }
 
+var c09Pools sync.Map // configuration key -> *sync.Pool of configured tokenizers
+
+func c09RunPooled(rec *evid.Recorder, c c09Case) {
+	key := string(c.Seps) + "|" + string(c.Quotes)
+	pv, _ := c09Pools.LoadOrStore(key, &sync.Pool{New: func() interface{} {
+		t := csv.NewCsvTokenizer()
+		t.SetFieldSeparators(c.Seps)
+		t.SetQuoteSymbols(c.Quotes)
+		return t
+	}})
+	pool := pv.(*sync.Pool)
+	t := pool.Get().(*csv.CsvTokenizer)
+	rec.Case(jsonStr(c), c09NonTrivial(c), func() interface{} { return c }, "eol:"+fmt.Sprintf("%q", c.Eol))
+	f := checkC09With(t, c)
+	pool.Put(t)
+	if f != nil {
+		if ff := checkC09(c); ff != nil {
+			rec.Fail(ff, c)
+		} else {
+			rec.Fail(evid.F("reused-instance-only:"+f.Sig, "%s", f.Msg), c)
+		}
+	}
+}
+
 var c09Eols = []string{"\n", "\r", "\r\n", "\n\r"}
 
 func TestC09_Exhaustive(t *testing.T) {
@@ -215,7 +253,9 @@ func TestC09_Exhaustive(t *testing.T) {
 	enumSerial(alpha, 1, func(p []string) { f1 = append(f1, strings.Join(p, "")) })
 	big := f1
 	if thorough() {
-		big = f2
+		// 2x2 tables with fields of length 0..2 over the sub-alphabet {a , " LF é}
+		big = nil
+		enumSerial([]string{"a", ",", "\"", "\n", "é"}, 2, func(p []string) { big = append(big, strings.Join(p, "")) })
 	}
 	rec.Bounds = fmt.Sprintf("tables 1x1, 1x2, 2x1 with every field of length 0..2 over {a , \" CR LF é 中}; 2x2 tables with fields of length 0..%d; x 4 line endings x 2 configurations (default , and \"; two separators ,; with quotes \" and '), x quoting {only when needed, always}", len([]rune(big[len(big)-1])))
 	configs := []c09Case{{Seps: []rune{','}, Quotes: []rune{'"'}}, {Seps: []rune{',', ';'}, Quotes: []rune{'"', '\''}}}
@@ -233,7 +273,7 @@ func TestC09_Exhaustive(t *testing.T) {
 							}
 						}
 					}
-					c09Run(rec, c)
+					c09RunPooled(rec, c)
 				}
 			}
 		}
